@@ -1,4 +1,5 @@
 import RV.C16.Text
+import Mathlib.Tactic.SplitIfs
 /-
   C16, round g — XML text: an XML 1.0 parser undoes `escape` / `SPARQLXMLWriter._characters` on character data and
   `quoteattr` on attribute values, for every string of XML `Char`s.
@@ -109,10 +110,12 @@ theorem readAttr_str_quot (s : Str) (hs : s.all xmlChar = true) (rest : Str) :
   | cons c cs ih =>
     have h' : xmlChar c = true ∧ cs.all xmlChar = true := by simpa using hs
     simp only [escAll, List.append_assoc]
-    unfold attrQuotChar
-    split
-    · next h => subst h; rw [readAttr_quot, ih h'.2]; rfl
-    · next h => rw [readAttr_char (.inl rfl) c h'.1 h, ih h'.2]; rfl
+    by_cases h : c = '"'
+    · subst h
+      have e : attrQuotChar '"' = sQuot := by decide
+      rw [e, readAttr_quot, ih h'.2]; rfl
+    · have e : attrQuotChar c = xmlAttrChar c := by simp [attrQuotChar, h]
+      rw [e, readAttr_char (.inl rfl) c h'.1 h, ih h'.2]; rfl
 
 theorem quotToRef_attrChar (c : Char) : escAll quotToRef (xmlAttrChar c) = attrQuotChar c := by
   unfold attrQuotChar xmlAttrChar xmlEscChar
